@@ -43,11 +43,46 @@ func CheckRootSchema(rootSchema *ischema.ISchema) {
 	for name := range types {
 		names = append(names, name)
 	}
-	sort.Strings(names)
+	sort.Slice(names, func(i, j int) bool {
+		return typeLess(names[i], types[names[i]], names[j], types[names[j]])
+	})
 
 	for _, name := range names {
 		c.checkType(name, types[name], types)
 	}
+}
+
+// typeLess orders the types for checking: the named types by name, then the
+// unnamed ones (their generated names contain a memory address, which says
+// nothing) by the file and the place they are written in.
+func typeLess(aName string, a ischema.Type, bName string, b ischema.Type) bool {
+	aUnnamed := len(aName) != 0 && aName[0] == '#'
+	bUnnamed := len(bName) != 0 && bName[0] == '#'
+	if aUnnamed != bUnnamed {
+		return bUnnamed
+	}
+	if !aUnnamed {
+		return aName < bName
+	}
+	aFile, aPos := unnamedTypePlace(a)
+	bFile, bPos := unnamedTypePlace(b)
+	if aFile != bFile {
+		return aFile < bFile
+	}
+	if aPos != bPos {
+		return aPos < bPos
+	}
+	return aName < bName
+}
+
+func unnamedTypePlace(t ischema.Type) (file string, pos bytes.Index) {
+	if t.RootFile != nil {
+		file = t.RootFile.Name()
+	}
+	if t.Schema != nil && t.Schema.RootNode() != nil {
+		pos = t.Schema.RootNode().BasisLexEventOfSchemaForNode().Begin()
+	}
+	return file, pos
 }
 
 func (c *checkSchema) checkType(name string, typ ischema.Type, ss map[string]ischema.Type) {
